@@ -25,7 +25,7 @@ ASSUMPTIONS = ["reference = vlib.daggen.ref_eval / vlib.mapgen.oracle on the ori
                "probe terms use the functions' own (internal) parameter names, so pipeline-level renaming must not change values",
                "nest_funcs subsets are chosen convex (no path leaves the subset and re-enters) by the harness's own graph analysis"]
 BATCH = 12
-REWRITES = ["copy", "pickle", "join", "or", "rename", "rename-swap", "scope", "scope-nested", "scope-remove", "nest", "nest-all", "simplify", "split"]
+REWRITES = ["copy", "pickle", "join", "or", "rename", "rename-swap", "rename-restore", "scope", "scope-nested", "scope-remove", "nest", "nest-all", "simplify", "split"]
 
 
 def plan(tier, seed):
@@ -142,6 +142,14 @@ def apply_rewrite(kind, st, case, rng, scratch):
         else:
             q.update_renames(ren, update_from="current")
         return State(q, {o: ren.get(c, c) for o, c in st.names.items()}, list(st.outs), st.conv, st.scope, st.nested)
+    if kind == "rename-restore":
+        # update_renames({name: name}, update_from="original") gives the signature names back: undoes earlier renames
+        changed = {o: c for o, c in st.names.items() if c != o}
+        if not changed or st.scope is not None or st.nested or isinstance(p, list) or any(f["iparams"] != f["params"] for f in case["funcs"]):
+            raise Skip
+        q = p.copy() if st.base else p
+        q.update_renames({o: o for o in changed}, update_from="original")
+        return State(q, {o: o for o in st.names}, list(st.outs), st.conv, st.scope, st.nested)
     if kind == "rename-swap":
         # permute the names of two root parameters that meet in one function (each new name is the other's current name)
         present_roots = [r for r in case["roots"] if st.names.get(r) and any(st.names[r] in f.parameters for f in p.functions)]
@@ -386,9 +394,27 @@ def check_overwrite_renames(v, case, rng, w0):
             return
 
 
+def _lit(funcs, roots, defaults=None):
+    return {"roots": roots, "defaults": defaults or {},
+            "funcs": [{"name": n, "params": list(ps), "iparams": list(ps), "outs": list(os_), "defaults": dict(df), "bound": {}}
+                      for n, ps, os_, df in funcs]}
+
+
+# directed DAGs: a consumer OUTSIDE a combinable group takes BOTH members of a tuple output produced inside the group
+LITERAL_DAGS = [
+    _lit([("f0", ["r0"], ["o0a", "o0b"], {}), ("f1", ["o0a"], ["o1"], {}), ("f2", ["o1", "r1", "o0a", "o0b"], ["o2"], {})], ["r0", "r1"]),
+    _lit([("f0", ["r0"], ["o0a", "o0b"], {}), ("f1", ["o0b"], ["o1"], {}), ("f2", ["o0b", "o0a", "r1", "o1"], ["o2"], {}),
+          ("f3", ["o2", "r0"], ["o3"], {})], ["r0", "r1"]),
+    _lit([("f0", ["r0", "r1"], ["o0a", "o0b"], {"r1": "Dr1"}), ("f1", ["o0a", "r0"], ["o1"], {}), ("f2", ["o1", "r2", "o0a", "o0b"], ["o2a", "o2b"], {})],
+         ["r0", "r1", "r2"], {"r1": "Dr1"}),
+]
+
+
 def run_dag(v, desc, scratch, keys):
     for i in range(desc["start"], desc["start"] + desc["n"]):
         case = daggen.case_from_seed(desc["seed"], i, p_ign=0.0)
+        if i < len(LITERAL_DAGS):
+            case = LITERAL_DAGS[i]
         rng = random.Random(f"c10:{desc['seed']}:{i}")
         cached = i % 4 == 3
         try:
@@ -418,6 +444,7 @@ def run_dag(v, desc, scratch, keys):
         check_overwrite_renames(v, case, rng, w0)
         chains = [[k] for k in REWRITES]
         chains += [["pickle", k] for k in ("rename", "scope", "rename-swap")] + [["pickle", "scope", "scope-remove"]]
+        chains += [["rename", "rename-restore"], ["rename-swap", "rename-restore"], ["rename", "copy", "rename-restore"]]
         for _ in range(desc["chains"] * 6):
             chains.append([rng.choice(REWRITES) for _ in range(rng.randint(2, 3))])
         for chain in chains:
